@@ -21,7 +21,7 @@ CLAIMS = {
  'C08': E1('3/C08', 'PFC within the bounds: two saves identical, build-twice images byte-identical (uninitialised heap bytes are nondeterministic in the model, so a stray byte fails), save of a loaded image reproduces it, image unchanged by a query; same for DAC_VLS/DAC_BVLS/LogSequence units.', BASE_NOTE),
  'C09': E2('3/C09', 'Real HASHRPDACBlocks constructor + real WorkerPool under every schedule within the bounds: blocks land in input order, every slot filled before the constructor returns, same parts/indexes for 1 and 2 workers; the per-block builder is abstracted by name.', BASE_NOTE + '; rt/e2_rt.h primitive model'),
  'C10': E2('3/C10', 'Real parallel/Worker.hpp (WorkerPool, Worker, WorkerQueue; real std::function, real condition-variable predicate loop) under EVERY schedule with at most K-1 context switches (pre-emption at every lock / wait / join point): no deadlock (lost wake-up, wait_workers not returning), every task runs exactly once and never concurrently with itself. Counterexample schedules are replayed on real threads under a schedule-forcing pthread layer.', 'clang-14 -O1 IR incl. libstdc++ header code; ir2c.py resumable mode; rt/e2_rt.h (mutex, condition variable, thread start/join model; sequentially consistent); task queue container replaced by a bounded FIFO (harness); cbmc'),
- 'C11': E2('3/C11', 'Same models as C10/C09 with a happens-before race monitor on the shared objects.', 'as C10'),
+ 'C11': E2('3/C11', 'Real parallel/Worker.hpp under every schedule within the context bound: every load/store of the thread code that touches the WorkerPool object (queue, flags), a Worker object or the task counters is checked by an Eraser-style lockset monitor (state per 4-byte granule, lockset = model mutexes held); a shared location written without a common lock fails. Reported races are confirmed with ThreadSanitizer on the real code. The block constructor\'s own shared state and the per-block builder are NOT covered (stated in DESIGN.md).', 'as C10, plus rt/e2_rt.h lockset monitor; shared regions as registered by the harness'),
  'C12': E1('3/C12', 'Two PFC dictionaries built from the same symbolic input with different bucket sizes (incl. 0 and 1, which must be replaced by 2) answer every locate / extract(any id) / locatePrefix query identically, for all inputs within the bounds.', BASE_NOTE),
  'C13': E1('3/C13', 'PFC extractTable within the bounds: exactly n strings, k-th == extract(k), reported length == strlen, hasNext false afterwards; extractPrefix iterators from every in-bucket offset; ID iterators (contiguous, duplicates with the caller-written sentinel, non-contiguous) and the vector string iterator over symbolic backing arrays.', BASE_NOTE),
  'C14': E1('3/C14', 'PFC within the bounds: for ALL query pairs (A,B) the answer to A is the same before and after B with an iterator left open, pattern buffers (incl. guard byte) unchanged, and the saved image of the object is bit-identical before and after any single query (inductive step for histories of any length).', BASE_NOTE),
@@ -34,7 +34,6 @@ CLAIMS = {
 
 NA = {
  'C09': 'the real HASHRPDACBlocks constructor + WorkerPool was encoded for the concurrency engine (harness/h_blocks_par.cpp, per-block builder replaced by name) but the smallest instance (1 string, 1 worker, 4 context switches) ran out of memory in propositional reduction after 1 h and the 2-string instance did not finish symbolic execution in 40 min: no verdict within reach (DESIGN.md 3/C09). The pool protocol it relies on is decided under C10',
- 'C11': 'a happens-before race monitor over every load/store of the thread code was out of budget on the C10 formulas (6-8 M SAT variables without it); the lock-misuse assertions that the schedule model does check are reported under C10, and the pre-emption reduction used there assumes race freedom (DESIGN.md 3/C11)',
  'C20': 'the Re-Pair compressor (IRePair: 65536-entry pair hash, heap of frequency lists, float growth factors) gave no verdict in 28 min on a 4-symbol sequence and a whole-kind RPDAC encoding with a model compressor gave none in 1 h; the grammar consumers are exercised only through the DAC units of C17 (DESIGN.md 3/C20)',
  'C05': 'substring search exists only in FMINDEX and XBW, whose answers depend on suffix sorting, BWT, wavelet trees and the XBW trie: none of that construction code is encodable within solver reach (DESIGN.md section 3/C05); the duplicate-skipping ID iterator is verified under C13',
 }
